@@ -15,8 +15,8 @@ fn comments_parser() -> anyhow::Result<impl CommentsParser> {
                 return None;
             }
             let comment = &source[node.byte_range()];
-            if comment.starts_with("#!") {
-                // Skip shebang.
+            if node.start_byte() == 0 && comment.starts_with("#!") {
+                // Skip shebang (only the very first line of a script can be one).
                 None
             } else {
                 Some(comment.replacen("#", " ", 1))
